@@ -23,7 +23,7 @@ from hplsim import core
 
 CHECKS = ('C07', 'C08', 'C12', 'C16', 'C19')
 RUNS = {'C07': 64, 'C08': 400, 'C12': 600, 'C16': 300, 'C19': 24}
-MUT_RUNS = {'C07': 500, 'C08': 12000, 'C12': 20000, 'C16': 3000, 'C19': 96}
+MUT_RUNS = {'C07': 500, 'C08': 16000, 'C12': 20000, 'C16': 3000, 'C19': 96}
 
 
 def _run(cmd, env=None, timeout=1200):
@@ -43,8 +43,13 @@ def _check_cmd(cid, *extra):
 
 
 def digests(cid, runs, env):
-    rc, out, err = _run(_check_cmd(cid, '--tier', 'quick', '--runs', str(runs), '--digests'),
-                        env=dict(env, HPLSIM_NO_VERIFY='1'))
+    scratch = tempfile.mkdtemp(prefix='hplsim_det_')
+    try:
+        rc, out, err = _run(_check_cmd(cid, '--tier', 'quick', '--runs', str(runs), '--digests'),
+                            env=dict(env, HPLSIM_NO_VERIFY='1', HPLSIM_EVIDENCE_DIR=os.path.join(scratch, 'evidence'),
+                                     HPLSIM_REPLAY_DIR=os.path.join(scratch, 'replays')))
+    finally:
+        shutil.rmtree(scratch, ignore_errors=True)
     if rc not in (0, 1):
         raise core.HarnessError('%s --digests failed (%d): %s' % (cid, rc, (out + err)[-600:]))
     d = {}
